@@ -9,14 +9,14 @@ def times(rs):
     return [float(fr(rs["start"]) + k * fr(rs["dt"])) for k in range(rs["n"] + 1)]
 
 
-def compare(R, case, get, channel, stats, whole_run=False):
+def compare(R, case, get, channel, stats, whole_run=False, elements=None):
     """get(element, k, t) -> float"""
     ts = times(case["rs"])
     # the quantifier excludes trajectories that are not finite: trend divides by its average, and a run that evaluates
     # the whole trajectory at once cannot report the element when one of its values does not exist
     skip = {"tr"} if whole_run and any(fr(row["tr"]) is None for row in case["traj"]) else set()
     for k, row in enumerate(case["traj"]):
-        for el in sd_dsl.ELEMENTS:
+        for el in (elements or sd_dsl.ELEMENTS):
             if el in skip:
                 continue
             exp = fr(row[el])
@@ -76,6 +76,17 @@ def run(tier, replay_file=None):
                     frames[el] = frames[el].plot(return_df=True)
                 return float(frames[el][el].iloc[k])
             compare(R, case, get_plot, "Element.plot(return_df=True)", stats, whole_run=True)
+        if ok and n + 1 < len(trajs) and trajs[n + 1]["P"] == case["P"] and trajs[n + 1]["rs"] != case["rs"]:
+            # observation point 4: the SAME model object re-run under another run specification (what a scenario with
+            # run specs does to its clone): run specs changed in place, cache reset, evaluated again
+            nxt = trajs[n + 1]
+            from BPTK_Py.sdsimulation import SdSimulation
+            ts = times(nxt["rs"])
+            SdSimulation(model=m).change_runspecs(ts[0], ts[-1], float(fr(nxt["rs"]["dt"])))
+            m.reset_cache()
+            indep = [e for e in sd_dsl.ELEMENTS if e not in ("dl", "pl")]      # delay / pulse capture dt when their equation is built
+            compare(R, nxt, lambda el, k, t: m.evaluate_equation(el, t), "the same model after its run specs were changed in place", stats, elements=indep)
+            R.add("rerun_with_changed_runspecs")
         if len(R.violations) >= 20:
             break
     R.cov["values_compared"] = stats.get("compared", 0)
